@@ -7,12 +7,12 @@
 EXTENDS Attrs, TLC
 
 CONSTANTS Modes, KindSet, DstSet, NlinkSet, OpModes, KeepSet, ForceSet, StdoutSet, NameSet, PayloadSet,
-          UidSameSet, GidSameSet, OwnSet, GrpSet, ChmodSet, NoWarnSet
+          UidSameSet, GidSameSet, OwnSet, GrpSet, ChmodSet, NoWarnSet, TailSet, NoSparseSet
 
 Init == \E om \in OpModes, k \in KeepSet, f \in ForceSet, so \in StdoutSet, nw \in NoWarnSet,
            kd \in KindSet, m \in Modes, nl \in NlinkSet, us \in UidSameSet, gs \in GidSameSet,
-           dk \in DstSet, nm \in NameSet, pl \in PayloadSet, oo \in OwnSet, go \in GrpSet, co \in ChmodSet :
-          AInit([opmode |-> om, keep |-> k, force |-> f, stdout |-> so, nowarn |-> nw, quiet |-> 0,
+           dk \in DstSet, nm \in NameSet, pl \in PayloadSet, oo \in OwnSet, go \in GrpSet, co \in ChmodSet, tl \in TailSet, ns \in NoSparseSet :
+          AInit([opmode |-> om, keep |-> k, force |-> f, stdout |-> (so \/ kd = "stdin"), optStdout |-> so, tail |-> tl, nosparse |-> ns, nowarn |-> nw, quiet |-> 0,
                  kind |-> kd, smode |-> m, nlink |-> nl, uidSame |-> us, gidSame |-> gs,
                  dstKind |-> dk, nameOK |-> nm, payloadOK |-> pl,
                  ownOK |-> oo, grpOK |-> go, chmodOK |-> co, root |-> TRUE])
@@ -59,6 +59,13 @@ OwnerGroupTimes == Done /\ dst.fresh =>
 KeepKeeps == (cfg.keep \/ cfg.stdout) /\ cfg.kind # "missing" => srcThere
 RemovedOnlyOnSuccess == cfg.kind # "missing" /\ ~srcThere => Done /\ Success /\ dst.fresh /\ dst.times = "src"
 RemovedOnSuccess == Done /\ Success /\ ~cfg.keep /\ ~cfg.stdout => ~srcThere /\ dst.fresh
+(* nothing is written to the target after its timestamps were set: the target's times are the source's    *)
+NoWriteAfterTimes == \A i \in 1..Len(sys), j \in 1..Len(sys) :
+                        i < j /\ sys[i].call \in {"fchown", "fchmod", "utimens"} => sys[j].call \notin {"data_dst", "finish_sparse"}
+(* a hole pending at the end of the data is turned into file size before the attributes are copied          *)
+HoleFinished == Done /\ dst.fresh /\ PendingHole(cfg) => \E i \in 1..Len(sys) : sys[i].call = "finish_sparse"
+(* the name "-" on the command line is standard input: no file is opened, created or removed               *)
+StdinTouchesNothing == cfg.kind = "stdin" => sys = <<>> /\ srcThere /\ ~dst.fresh
 (* exit status: 0 / 1 / 2                                                   *)
 ExitOK == Done => /\ ExitContract(Sevs, cfg.nowarn)
                   /\ (Success /\ msgs = <<>> => ExitOf = 0)
